@@ -287,6 +287,70 @@ func BuildFilesRev(svcs []ServiceSpec) (*protoregistry.Files, []protoreflect.Ser
 	return buildFilesWith(msgsFileDescRev(), svcs)
 }
 
+// BuildFilesOneFile declares all the services (of one package) in ONE proto file, as hand-written APIs usually do.
+func BuildFilesOneFile(svcs []ServiceSpec) (*protoregistry.Files, []protoreflect.ServiceDescriptor, error) {
+	files := &protoregistry.Files{}
+	if err := files.RegisterFile(msgsFileDesc()); err != nil {
+		return nil, nil, err
+	}
+	pkg := svcs[0].Pkg
+	if pkg == "" {
+		pkg = "vs"
+	}
+	fileSeq.Lock()
+	fileSeq.n++
+	fname := fmt.Sprintf("verif/multi_%d.proto", fileSeq.n)
+	fileSeq.Unlock()
+	fdp := &descriptorpb.FileDescriptorProto{
+		Name:       proto.String(fname),
+		Package:    proto.String(pkg),
+		Syntax:     proto.String("proto3"),
+		Dependency: []string{msgsFile, "google/api/annotations.proto", "google/api/httpbody.proto", "google/protobuf/empty.proto"},
+	}
+	for _, svc := range svcs {
+		fdp.Service = append(fdp.Service, serviceProto(svc))
+	}
+	fd, err := protodesc.NewFile(fdp, fallbackResolver{files})
+	if err != nil {
+		return nil, nil, fmt.Errorf("protodesc: %w", err)
+	}
+	if err := files.RegisterFile(fd); err != nil {
+		return nil, nil, err
+	}
+	var sds []protoreflect.ServiceDescriptor
+	for i := 0; i < fd.Services().Len(); i++ {
+		sds = append(sds, fd.Services().Get(i))
+	}
+	return files, sds, nil
+}
+
+func serviceProto(svc ServiceSpec) *descriptorpb.ServiceDescriptorProto {
+	sdp := &descriptorpb.ServiceDescriptorProto{Name: proto.String(svc.Name)}
+	for _, m := range svc.Methods {
+		in, out := m.In, m.Out
+		if in == "" {
+			in = ".vr.Req"
+		}
+		if out == "" {
+			out = ".vr.Rep"
+		}
+		mdp := &descriptorpb.MethodDescriptorProto{
+			Name:            proto.String(m.Name),
+			InputType:       proto.String(in),
+			OutputType:      proto.String(out),
+			ClientStreaming: proto.Bool(m.ClientStream),
+			ServerStreaming: proto.Bool(m.ServerStream),
+		}
+		if m.Rule != nil {
+			opts := &descriptorpb.MethodOptions{}
+			proto.SetExtension(opts, annotations.E_Http, m.Rule)
+			mdp.Options = opts
+		}
+		sdp.Method = append(sdp.Method, mdp)
+	}
+	return sdp
+}
+
 func buildFilesWith(msgs protoreflect.FileDescriptor, svcs []ServiceSpec) (*protoregistry.Files, []protoreflect.ServiceDescriptor, error) {
 	files := &protoregistry.Files{}
 	if err := files.RegisterFile(msgs); err != nil {
